@@ -269,6 +269,13 @@ def rule_pair(fx, rep):
                     why = "" if good else f"key assigned from `{show(e)}` rather than from the popped History entry"
                 if good and not uncond(b, bb):
                     good, why = False, "key restore is conditional"
+                if good and wn.endswith("from_state"):
+                    # the from-scratch key must be computed after every hashed field is in place: no direct write to a hashed
+                    # field may follow it (writes through Game::set_at / remove_at / set_en_passant keep the key themselves)
+                    after = b.reachable(bb) - {bb}
+                    for (wb, widx, adt, fld, kind, place) in b.field_writes():
+                        if adt == gh.GAME and fld in HASHED and (wb in after or (wb == bb and widx is not None and widx > j)):
+                            good, why = False, f"Game.{fld} is written directly after the key was computed from scratch: the carried key no longer describes the position"
         rep.obligation(good)
         if not good:
             bad(f"wholesale/{wn}", f"`{b.name}`: {why}", b)
@@ -539,6 +546,8 @@ def rule_init(fx, rep):
 G = "src/chess/game.rs"
 Z = "src/chess/zobrist.rs"
 MUTANTS = [
+    {"name": "constructor drops an uncapturable en-passant target after hashing (seed C03-3)", "expect": "C03-PAIR/wholesale/Game::from_state",
+     "edits": [("src/chess/game.rs", "        game.zobrist = zobrist::hash(&game);\n", "        game.zobrist = zobrist::hash(&game);\n\n        if let Some(target) = game.en_passant_target {\n            if !(target.bb().backward(player).west() & game.board.pawns(player)).any() {\n                game.en_passant_target = None;\n            }\n        }\n")]},
     {"name": "null move forgets side toggle", "expect": "C03-PAIR/side",
      "edits": [(G, "        self.player = self.player.other();\n        self.zobrist.toggle_side_to_play();\n    }\n\n    pub fn undo_move", "        self.player = self.player.other();\n    }\n\n    pub fn undo_move")]},
     {"name": "castle rights toggled even when already lost", "expect": "C03-PAIR/try_remove_castle_rights",
